@@ -295,6 +295,7 @@ func (w *walker) stmt(s ast.Stmt, st *State) *State {
 		}
 		w.breaks = append(w.breaks, nil)
 		end := w.block(x.Body.List, body)
+		w.res.endOf[x.Body] = end
 		w.breaks = w.breaks[:len(w.breaks)-1]
 		if x.Post != nil && !end.Dead {
 			w.stmt(x.Post, end)
@@ -324,7 +325,7 @@ func (w *walker) stmt(s ast.Stmt, st *State) *State {
 			}
 		}
 		w.breaks = append(w.breaks, nil)
-		w.block(x.Body.List, body)
+		w.res.endOf[x.Body] = w.block(x.Body.List, body)
 		w.breaks = w.breaks[:len(w.breaks)-1]
 		return entry
 	case *ast.SwitchStmt:
@@ -595,6 +596,11 @@ func (w *walker) setVar(st *State, o types.Object, d *Def) *State {
 	n.Facts = nil
 	for _, f := range st.Facts {
 		if !f.objs[o] {
+			n.Facts = append(n.Facts, f)
+			continue
+		}
+		// a fact that already reads o through its own environment is not affected by a later assignment
+		if f.Alt == nil && f.Frozen[o] {
 			n.Facts = append(n.Facts, f)
 			continue
 		}
